@@ -735,7 +735,8 @@ def runAfetchFull (argv : List String) (files : String → Option (List Char)) :
 /-- esl-alistat [-1] [--list f] [--icinfo f] [--rinfo f] [--iinfo f] [--cinfo f [--noambig]] --informat (stockholm|pfam) (--dna|--rna|--amino) <msafile>:
     digital-mode Stockholm input, summary on stdout, the optional output files -/
 def runAlistatFull (argv : List String) (files : String → Option (List Char)) : Option (String × List (String × List Char)) := do
-  let p ← parseArgs ["--dna", "--rna", "--amino", "-1", "--noambig"] ["--informat", "--list", "--icinfo", "--rinfo", "--iinfo", "--cinfo"] argv {}
+  let p ← parseArgs ["--dna", "--rna", "--amino", "-1", "--noambig", "--weight"]
+    ["--informat", "--list", "--icinfo", "--rinfo", "--iinfo", "--cinfo", "--pcinfo", "--psinfo", "--bpinfo"] argv {}
   let infmt ← p.val? "--informat"
   if infmt != "stockholm" && infmt != "pfam" then (runAlistat argv files).map fun o => (o, []) else
   let V ← match p.has "--dna", p.has "--rna", p.has "--amino" with
@@ -744,10 +745,11 @@ def runAlistatFull (argv : List String) (files : String → Option (List Char)) 
     | false, false, true => some Ali.viewsAmino
     | _, _, _ => none
   let [fn] := p.pos | none
-  let outs := ["--list", "--icinfo", "--rinfo", "--iinfo", "--cinfo"].filterMap p.val?
+  let outs := ["--list", "--icinfo", "--rinfo", "--iinfo", "--cinfo", "--pcinfo", "--psinfo", "--bpinfo"].filterMap p.val?
   if outs.eraseDups.length != outs.length || outs.contains fn then none      -- two streams on one file: not defined by the reference
-  let o : Ali.AlistatOpts := { oneLine := p.has "-1", noAmbig := p.has "--noambig", list := p.val? "--list", icinfo := p.val? "--icinfo",
-                               rinfo := p.val? "--rinfo", iinfo := p.val? "--iinfo", cinfo := p.val? "--cinfo" }
+  let o : Ali.AlistatOpts := { oneLine := p.has "-1", noAmbig := p.has "--noambig", weight := p.has "--weight", list := p.val? "--list", icinfo := p.val? "--icinfo",
+                               rinfo := p.val? "--rinfo", iinfo := p.val? "--iinfo", cinfo := p.val? "--cinfo",
+                               pcinfo := p.val? "--pcinfo", psinfo := p.val? "--psinfo", bpinfo := p.val? "--bpinfo" }
   let (out, written) ← Ali.alistatInfo V o infmt fn (c2b (← files fn))
   some (out, written.map fun (f, t) => (f, t.toList))
 
